@@ -1,22 +1,26 @@
 (* C15 — the headline: the monitor accepts the wire trace of every disciplined run of the
    model (assembly of the per-rule lemmas). *)
 From Coq Require Import List Arith ZArith Bool Lia.
-From Verif Require Import lib.Wire c15.Lts c15.Model c15.Spec c15.Proofs c15.Proofs_Disc c15.Proofs_Mon c15.Proofs_RCtx c15.Proofs_R3 c15.Proofs_R5 c15.Proofs_R4 c15.Proofs_R9 c15.Proofs_R7 c15.Proofs_R6.
+From Verif Require Import lib.Wire c15.Lts c15.Model c15.Spec c15.Proofs c15.Proofs_Disc c15.Proofs_Mon c15.Proofs_RCtx c15.Proofs_R3 c15.Proofs_R5 c15.Proofs_R4
+  c15.Proofs_R9 c15.Proofs_R7 c15.Proofs_R6 c15.Proofs_R8.
 Import ListNotations.
 Local Open Scope Z_scope.
 
-(* rules whose coupling is not (yet) proved *)
-Definition missing_rules : list Z := [8; 10].
+Lemma all_read_rules : forall r, In r [1; 2; 3; 4; 5; 6; 7; 8] -> read_rule_ok r.
+Proof.
+  intros r Hr. cbn in Hr. destruct Hr as [<-|[<-|[<-|[<-|[<-|[<-|[<-|[<-|[]]]]]]]]].
+  - exact rule1_ok. - exact rule2_ok. - exact rule3_ok. - exact rule4_ok. - exact rule5_ok. - exact rule6_ok. - exact rule7_ok. - exact rule8_ok.
+Qed.
 
-Lemma monitor_accepts_model_partial_l : forall c sched fin,
+Lemma all_quiet_rules : forall r, In r [9; 10] -> quiet_rule_ok r.
+Proof. intros r Hr. cbn in Hr. destruct Hr as [<-|[<-|[]]]; [exact rule9_ok|exact rule10_ok]. Qed.
+
+Lemma monitor_accepts_model_l : forall c sched fin,
   cfg_wf c = true -> nonneg (c_ntypes c) = true -> Disc c sched ->
   (fin = 0 \/ (fin = 5 /\ final_ok c sched)) ->
-  allowed missing_rules (monitor_case (wire_of_run c sched fin)).
+  monitor_case (wire_of_run c sched fin) = [].
 Proof.
-  apply monitor_model_gen.
-  - intros r Hr Nm. cbn in Hr. unfold missing_rules in Nm. cbn in Nm.
-    destruct Hr as [<-|[<-|[<-|[<-|[<-|[<-|[<-|[<-|[]]]]]]]]];
-      try (exfalso; apply Nm; tauto).
-    + exact rule1_ok. + exact rule2_ok. + exact rule3_ok. + exact rule4_ok. + exact rule5_ok. + exact rule6_ok. + exact rule7_ok.
-  - intros r Hr Nm. cbn in Hr. unfold missing_rules in Nm. cbn in Nm. destruct Hr as [<-|[<-|[]]]; try (exfalso; apply Nm; tauto). exact rule9_ok.
+  intros c sched fin W N D F.
+  destruct (monitor_model_gen [] (fun r Hr _ => all_read_rules r Hr) (fun r Hr _ => all_quiet_rules r Hr) c sched fin W N D F) as [X|[r [rest [_ []]]]].
+  exact X.
 Qed.
